@@ -400,7 +400,7 @@ package priority
 
 //@ func (*Discipline).calcVacants
 //@   requires [*] WF(dsc)
-//@   ensures [* C01] result1 == nil && result0 == gH - msum(dsc.actual)
+//@   ensures [* C01 C17] result1 == nil && result0 == gH - msum(dsc.actual)
 
 //@ func (*Discipline).isInputExists
 //@   requires [*] dsc != nil
